@@ -436,7 +436,8 @@ func (p *flagParser) parsePrimitive(stopSet string) (interface{}, error) {
 	if n, err := strconv.ParseUint(content, 0, 64); err == nil {
 		return n, nil
 	}
-	if n, err := strconv.ParseInt(content, 0, 64); err == nil {
+	n, intErr := strconv.ParseInt(content, 0, 64)
+	if intErr == nil {
 		return n, nil
 	}
 	if strings.HasPrefix(content, "+") {
@@ -446,6 +447,14 @@ func (p *flagParser) parsePrimitive(stopSet string) (interface{}, error) {
 		}
 	}
 	if n, err := strconv.ParseFloat(content, 64); err == nil {
+		// An integer no 64 bit type holds is read as the nearest float64. Just
+		// below MinInt64 that float64 is -2^63, an in-range integer again:
+		// -9223372036854775809 would unpack into an int64 as
+		// -9223372036854775808. Such a numeral stays text (integer targets
+		// refuse it, float targets round it, string targets keep every digit).
+		if ne, ok := intErr.(*strconv.NumError); ok && ne.Err == strconv.ErrRange && n >= -(1<<63) && n < (1<<64) {
+			return content, nil
+		}
 		return n, nil
 	}
 
